@@ -66,9 +66,13 @@ def _det_enum(tier):
             if not any(c[0] == "primary" for t in threads for c in t):
                 continue  # without a primary dispose nothing may ever be released; covered by hist and det-gen
             yield {"cls": "refcount", "deps": deps, "item": "plain", "threads": threads, "sched": {"mode": "all", "K": K}}
+    # bytecode granularity inside the RefCountDisposable methods (splits `self.count -= 1`): ~4x more steps, so
+    # K=2 only for two single-command threads
+    shapes = [((1, 1), K)] if tier == "quick" else [((1, 1), 2), ((1, 2), 1), ((1, 1, 1), 1)]
     for deps in (1, 2):
-        for threads in disp.programs(_alpha(deps), [(1, 1)] if tier == "quick" else [(1, 1), (1, 2), (1, 1, 1)]):
-            yield {"cls": "refcount", "deps": deps, "item": "empty", "threads": threads, "opcodes": _OPC, "sched": {"mode": "all", "K": K}}
+        for shape, k in shapes:
+            for threads in disp.programs(_alpha(deps), [shape]):
+                yield {"cls": "refcount", "deps": deps, "item": "empty", "threads": threads, "opcodes": _OPC, "sched": {"mode": "all", "K": k}}
 
 
 def _cmd():
